@@ -2864,6 +2864,41 @@ fn main() {
             }
         }
     }
+    // 9. function names whose LAST unit decides the separator before `()`: an unquoted `$` (or a tilde name ending in `$`)
+    //    after every kind of unit - nothing, literals, single / double / dollar-single quotes, a backslash escape, raw and
+    //    braced parameters, a backquote and a command substitution, an arithmetic expansion, a tilde prefix - and the same
+    //    names NOT ending in `$`; each in several places of a program.  The printed definition must read back as the same
+    //    function (a name directly followed by `(` after `$` would be a command substitution).
+    {
+        let prefixes: &[&str] = &["", "a", "f_1", "'f'", "'f'x", "\"a\"", "\"a b\"x", "$'x'", "$'\\n'y", "\\a", "\\$", "a\\ ", "$x", "$1", "$?", "${x}", "${y:-z}", "`c`", "$(c)", "$((1))", "~", "~a", "~a/b", "~/", "a\"$\"", "'$'", "\"$x\"", "a$b", "$$", "x'y'\"z\"\\w"];
+        let ends: &[&str] = &["$", "$", "", "x"];
+        let bodies: &[&str] = &["{ :; }", "(:)", "{ echo; } >f", "if a; then b; fi"];
+        let places: &[&str] = &["@", "{ @; }", "a; @", "(@)", "if :; then @; fi", "x=1 || @", "@\n@"];
+        let mut k = 0usize;
+        for (pi, pre) in prefixes.iter().enumerate() {
+            for (ei, end) in ends.iter().enumerate() {
+                let name = format!("{pre}{end}");
+                if name.is_empty() {
+                    continue;
+                }
+                for (bi, body) in bodies.iter().enumerate() {
+                    for (li, place) in places.iter().enumerate() {
+                        // quick: a rotating third of (body, place); thorough: all
+                        if !o.thorough() && (pi + ei + bi + li) % 3 != 0 {
+                            continue;
+                        }
+                        k += 1;
+                        if !mine(&mut idx) {
+                            continue;
+                        }
+                        let sep = [" ", "\t", " \\\n"][k % 3];
+                        let def = format!("{name}{sep}() {body}");
+                        run_raw(&mut r, &place.replace('@', &def), true);
+                    }
+                }
+            }
+        }
+    }
     // 5. what the shell shows to the user: `typeset -fp` and the job table
     let n_shell = if o.thorough() { 4_000 } else { 300 };
     let mut hrng = Rng::new(o.seed ^ 0xF0B5);
